@@ -165,6 +165,7 @@ type context struct {
 	loaded      map[*types.Package]*pkgInfo       // loaded packages
 	bvals       map[ssa.Value]llssa.Expr          // block values
 	boxed       map[*ssa.MakeInterface]llssa.Expr // large values boxed at their load (see compileInstrOrValue)
+	arrCopies   map[*ssa.UnOp]llssa.Expr          // stack copies of loaded arrays that are indexed later
 	vargs       map[*ssa.Alloc][]llssa.Expr       // varargs
 	funcs       map[*ssa.Function]llssa.Function
 	stackDefers map[*ssa.Function]bool
@@ -450,6 +451,7 @@ func (p *context) compileFuncDecl(pkg llssa.Package, f *ssa.Function) (llssa.Fun
 			}
 			p.bvals = make(map[ssa.Value]llssa.Expr)
 			p.boxed = nil
+			p.arrCopies = nil
 			off := make([]int, len(f.Blocks))
 			if isCgo {
 				p.cgoArgs = make([]llssa.Expr, len(f.Params))
@@ -899,6 +901,18 @@ func (p *context) compileInstrOrValue(b llssa.Builder, iv instrOrValue, asValue 
 			ret = b.Recv(x, v.CommaOk)
 		} else {
 			ret = b.UnOp(v.Op, x)
+			if v.Op == token.MUL && loadedArrayIsIndexed(v) {
+				// An Index of this array value (range over an array, indexing a
+				// copy) must see the elements as of this load, not whatever the
+				// source memory holds when the Index executes: keep a private
+				// copy for the Index instructions to address.
+				tmp := b.Alloc(p.type_(v.Type(), llssa.InGo), false)
+				b.Store(tmp, ret)
+				if p.arrCopies == nil {
+					p.arrCopies = make(map[*ssa.UnOp]llssa.Expr)
+				}
+				p.arrCopies[v] = tmp
+			}
 		}
 	case *ssa.ChangeType:
 		t := v.Type()
@@ -940,7 +954,9 @@ func (p *context) compileInstrOrValue(b llssa.Builder, iv instrOrValue, asValue 
 			case *ssa.Const:
 				zero = true
 			case *ssa.UnOp:
-				addr = p.compileValue(b, n.X)
+				if tmp, ok := p.arrCopies[n]; ok {
+					addr = tmp
+				}
 			}
 			return
 		})
@@ -1122,6 +1138,24 @@ func loadDirectlyPrecedes(v *ssa.UnOp, instr ssa.Instruction) bool {
 				continue
 			}
 			return next == instr
+		}
+	}
+	return false
+}
+
+// loadedArrayIsIndexed reports whether v loads an array value that is the
+// operand of an Index instruction.
+func loadedArrayIsIndexed(v *ssa.UnOp) bool {
+	if _, ok := v.Type().Underlying().(*types.Array); !ok {
+		return false
+	}
+	refs := v.Referrers()
+	if refs == nil {
+		return false
+	}
+	for _, ref := range *refs {
+		if idx, ok := ref.(*ssa.Index); ok && idx.X == ssa.Value(v) {
+			return true
 		}
 	}
 	return false
